@@ -229,7 +229,7 @@ func (w *World) intrinsic(t *Thread, f *Frame, fnv FuncV, args []Val, c *ssa.Cal
 		m.w = t
 		w.noteLock(t, m)
 		if w.raceOn {
-			t.vc = t.vc.join(m.vc)
+			t.vc = t.vc.join(m.vc).join(m.rvc)
 		}
 		return nil, false
 	case "(*sync.RWMutex).Unlock", "(*sync.Mutex).Unlock":
@@ -274,8 +274,9 @@ func (w *World) intrinsic(t *Thread, f *Frame, fnv FuncV, args []Val, c *ssa.Cal
 		}
 		w.noteUnlock(t, m)
 		if w.raceOn {
+			// a reader's release is ordered before later writers, not before other readers
 			t.vc = t.vc.tick(t.id)
-			m.vc = m.vc.join(t.vc)
+			m.rvc = m.rvc.join(t.vc)
 		}
 		return nil, false
 	case "(*sync.WaitGroup).Add":
@@ -574,6 +575,49 @@ func (w *World) intrinsic(t *Thread, f *Frame, fnv FuncV, args []Val, c *ssa.Cal
 		return w.errorsIs(t, args[0].(IfaceV), args[1].(IfaceV)), false
 	case "errors.As":
 		return w.errorsAs(t, args[0].(IfaceV), args[1].(IfaceV)), false
+	case "errors.Join":
+		var es []Val
+		for _, x := range w.sliceElems(args[0]) {
+			if iv, ok := x.(IfaceV); ok && iv.typ != nil {
+				es = append(es, iv)
+			}
+		}
+		if len(es) == 0 {
+			return IfaceV{}, false
+		}
+		arr := w.newObj(ArrayV{es}, nil)
+		o := w.newObj(StructV{[]Val{SliceV{arr, 0, len(es)}}}, w.eng.joinErrorT)
+		return IfaceV{typ: types.NewPointer(w.eng.joinErrorT), v: Ptr{o: o}}, false
+	case "(*errors.joinError).Error":
+		var parts []interface{}
+		for k, x := range w.sliceElems(w.load(t, args[0].(Ptr)).(StructV).f[0]) {
+			if k > 0 {
+				parts = append(parts, "\n")
+			}
+			switch r := w.render(t, x, 'v').(type) {
+			case string:
+				parts = append(parts, r)
+			case PStr:
+				parts = append(parts, r.parts...)
+			case Sym:
+				parts = append(parts, r)
+			}
+		}
+		all := true
+		str := ""
+		for _, p := range parts {
+			if cs, ok := p.(string); ok {
+				str += cs
+			} else {
+				all = false
+			}
+		}
+		if all {
+			return str, false
+		}
+		return PStr{parts}, false
+	case "(*errors.joinError).Unwrap":
+		return w.load(t, args[0].(Ptr)).(StructV).f[0], false
 	case "errors.Unwrap":
 		return w.unwrap(t, args[0].(IfaceV)), false
 	case "strings.ToLower":
@@ -701,6 +745,29 @@ func (w *World) intrinsic(t *Thread, f *Frame, fnv FuncV, args []Val, c *ssa.Cal
 			return TupleV{BytesV{&Rec{mk: true, id: sv.f[0], tok: sv.f[1], prio: sv.f[2]}}, IfaceV{}}, false
 		}
 		panic(engErr("json.Marshal of " + iv.typ.String()))
+	case "bytes.NewReader", "bytes.NewBuffer":
+		b, _ := args[0].(BytesV)
+		return Ptr{o: w.newObj(ReaderV{b}, nil)}, false
+	case "bytes.NewBufferString", "strings.NewReader":
+		return Ptr{o: w.newObj(ReaderV{w.convert(args[0], types.Typ[types.String], types.NewSlice(types.Typ[types.Uint8])).(BytesV)}, nil)}, false
+	case "encoding/json.NewDecoder":
+		iv, _ := args[0].(IfaceV)
+		p, ok := iv.v.(Ptr)
+		if !ok || p.o == nil {
+			panic(engErr("json.NewDecoder on an unknown reader"))
+		}
+		rv, ok := p.o.v.(ReaderV)
+		if !ok {
+			panic(engErr("json.NewDecoder on an unknown reader"))
+		}
+		return Ptr{o: w.newObj(DecoderV{rv.b}, nil)}, false
+	case "(*encoding/json.Decoder).Decode":
+		d := args[0].(Ptr).o.v.(DecoderV)
+		// a streaming decoder reads the FIRST JSON value and ignores what follows: its outcome on arbitrary
+		// bytes is a separate abstract parse that agrees with Unmarshal whenever Unmarshal succeeds
+		return w.jsonUnmarshal(t, BytesV{w.decoderView(d.b.r)}, args[1].(IfaceV)), false
+	case "(*encoding/json.Decoder).DisallowUnknownFields", "(*encoding/json.Decoder).UseNumber":
+		return nil, false
 	case "encoding/json.Unmarshal":
 		return w.jsonUnmarshal(t, args[0], args[1].(IfaceV)), false
 	case "builtin:append":
@@ -844,6 +911,34 @@ func (w *World) method(typ types.Type, name string) *ssa.Function {
 	return nil
 }
 
+// unwrapAll returns the errors directly wrapped by e (Unwrap() error or Unwrap() []error).
+func (w *World) unwrapAll(t *Thread, e IfaceV) []IfaceV {
+	if e.typ == nil {
+		return nil
+	}
+	if _, ok := e.v.(*Ctx); ok {
+		return nil
+	}
+	m := w.method(e.typ, "Unwrap")
+	if m == nil || m.Signature.Results().Len() != 1 {
+		return nil
+	}
+	if _, isSlice := m.Signature.Results().At(0).Type().Underlying().(*types.Slice); isSlice {
+		var out []IfaceV
+		for _, x := range w.sliceElems(w.callSync(t, FuncV{fn: m}, []Val{e.v})) {
+			if iv, ok := x.(IfaceV); ok && iv.typ != nil {
+				out = append(out, iv)
+			}
+		}
+		return out
+	}
+	r, _ := w.callSync(t, FuncV{fn: m}, []Val{e.v}).(IfaceV)
+	if r.typ == nil {
+		return nil
+	}
+	return []IfaceV{r}
+}
+
 func (w *World) unwrap(t *Thread, e IfaceV) IfaceV {
 	if e.typ == nil {
 		return IfaceV{}
@@ -856,34 +951,39 @@ func (w *World) unwrap(t *Thread, e IfaceV) IfaceV {
 		return IfaceV{}
 	}
 	if _, isSlice := m.Signature.Results().At(0).Type().Underlying().(*types.Slice); isSlice {
-		panic(engErr("Unwrap() []error"))
+		return IfaceV{} // errors.Unwrap does not descend into multi-error wrappers
 	}
 	r, _ := w.callSync(t, FuncV{fn: m}, []Val{e.v}).(IfaceV)
 	return r
 }
 
 func (w *World) errorsIs(t *Thread, err, target IfaceV) Val {
-	for depth := 0; depth < 32; depth++ {
-		if err.typ == nil {
-			return target.typ == nil
-		}
-		if target.typ != nil && types.Comparable(target.typ) {
-			eq := w.valEq(err, target)
-			if w.truth(eq) {
-				return true
-			}
-		}
-		if m := w.method(err.typ, "Is"); m != nil && m.Signature.Params().Len() == 1 {
-			if r := w.callSync(t, FuncV{fn: m}, []Val{err.v, target}); w.truth(r) {
-				return true
-			}
-		}
-		err = w.unwrap(t, err)
-		if err.typ == nil {
-			return false
+	return w.errorsIsD(t, err, target, 0)
+}
+
+func (w *World) errorsIsD(t *Thread, err, target IfaceV, depth int) bool {
+	if depth > 32 {
+		panic(engErr("errors.Is depth"))
+	}
+	if err.typ == nil {
+		return target.typ == nil
+	}
+	if target.typ != nil && types.Comparable(target.typ) {
+		if w.truth(w.valEq(err, target)) {
+			return true
 		}
 	}
-	panic(engErr("errors.Is depth"))
+	if m := w.method(err.typ, "Is"); m != nil && m.Signature.Params().Len() == 1 {
+		if r := w.callSync(t, FuncV{fn: m}, []Val{err.v, target}); w.truth(r) {
+			return true
+		}
+	}
+	for _, c := range w.unwrapAll(t, err) {
+		if w.errorsIsD(t, c, target, depth+1) {
+			return true
+		}
+	}
+	return false
 }
 
 func (w *World) errorsAs(t *Thread, err, target IfaceV) Val {
@@ -891,28 +991,36 @@ func (w *World) errorsAs(t *Thread, err, target IfaceV) Val {
 	if !ok {
 		panic(goPanicSignal{"errors: target must be a non-nil pointer"})
 	}
-	want := tp.Elem()
-	for depth := 0; depth < 32; depth++ {
-		if err.typ == nil {
-			return false
-		}
-		match := false
+	return w.errorsAsD(t, err, target, tp.Elem(), 0)
+}
+
+func (w *World) errorsAsD(t *Thread, err, target IfaceV, want types.Type, depth int) bool {
+	if depth > 32 {
+		panic(engErr("errors.As depth"))
+	}
+	if err.typ == nil {
+		return false
+	}
+	match := false
+	if types.IsInterface(want) {
+		match = types.Implements(err.typ, want.Underlying().(*types.Interface))
+	} else {
+		match = types.Identical(err.typ, want)
+	}
+	if match {
 		if types.IsInterface(want) {
-			match = types.Implements(err.typ, want.Underlying().(*types.Interface))
+			w.store(t, target.v.(Ptr), err)
 		} else {
-			match = types.Identical(err.typ, want)
+			w.store(t, target.v.(Ptr), err.v)
 		}
-		if match {
-			if types.IsInterface(want) {
-				w.store(t, target.v.(Ptr), err)
-			} else {
-				w.store(t, target.v.(Ptr), err.v)
-			}
+		return true
+	}
+	for _, c := range w.unwrapAll(t, err) {
+		if w.errorsAsD(t, c, target, want, depth+1) {
 			return true
 		}
-		err = w.unwrap(t, err)
 	}
-	panic(engErr("errors.As depth"))
+	return false
 }
 
 // errText returns err.Error() (concrete string, PStr or Sym).
@@ -1072,7 +1180,13 @@ func (w *World) errorf(t *Thread, fmtS string, va Val) Val {
 		return IfaceV{typ: types.NewPointer(w.eng.wrapErrorT), v: Ptr{o: o}}
 	}
 	if len(wrapped) > 1 {
-		panic(engErr("Errorf with several %w"))
+		var es []Val
+		for _, x := range wrapped {
+			es = append(es, x)
+		}
+		arr := w.newObj(ArrayV{es}, nil)
+		o := w.newObj(StructV{[]Val{msg, SliceV{arr, 0, len(es)}}}, w.eng.wrapErrorsT)
+		return IfaceV{typ: types.NewPointer(w.eng.wrapErrorsT), v: Ptr{o: o}}
 	}
 	o := w.newObj(StructV{[]Val{msg}}, w.eng.errorStringT)
 	return IfaceV{typ: types.NewPointer(w.eng.errorStringT), v: Ptr{o: o}}
@@ -1296,6 +1410,37 @@ func (w *World) mathPow(x, y Val) Val {
 }
 
 // ---------- JSON ----------
+type ReaderV struct{ b BytesV }
+type DecoderV struct{ b BytesV }
+
+// decoderView: the record as seen by json.Decoder.Decode (first value only).
+func (w *World) decoderView(r *Rec) *Rec {
+	if r == nil || r.empty || r.mk || strings.HasPrefix(r.name, "raw") {
+		return r
+	}
+	if v := w.recs["decview:"+r.name]; v != nil {
+		return v
+	}
+	v := &Rec{name: r.name + "_dec"}
+	w.recs["decview:"+r.name] = v
+	pairs := [][2]string{{"sErr", "Bool"}, {"mErr", "Bool"}, {"sNull", "Bool"}, {"sID", "String"}, {"sTok", "String"}, {"sPrio", "Int"},
+		{"mHas_id", "Bool"}, {"mIsStr_id", "Bool"}, {"mStr_id", "String"}, {"mHas_token", "Bool"}, {"mIsStr_token", "Bool"}, {"mStr_token", "String"}}
+	var eqS, eqM []string
+	for _, p := range pairs {
+		a, b := term(w.recFn(r, p[0], p[1])), term(w.recFn(v, p[0], p[1]))
+		if strings.HasPrefix(p[0], "m") {
+			eqM = append(eqM, "(= "+a+" "+b+")")
+		} else {
+			eqS = append(eqS, "(= "+a+" "+b+")")
+		}
+	}
+	w.s.send("(assert (not " + term(w.recFn(v, "empty", "Bool")) + "))")
+	w.s.send("(assert (=> " + term(w.recFn(v, "mErr", "Bool")) + " " + term(w.recFn(v, "sErr", "Bool")) + "))")
+	w.s.send("(assert (=> (not " + term(w.recFn(r, "mErr", "Bool")) + ") (and " + strings.Join(eqM, " ") + ")))")
+	w.s.send("(assert (=> (not " + term(w.recFn(r, "sErr", "Bool")) + ") (and " + strings.Join(eqS, " ") + ")))")
+	return v
+}
+
 func (w *World) jsonUnmarshal(t *Thread, data Val, target IfaceV) Val {
 	b, _ := data.(BytesV)
 	tp, ok := target.typ.(*types.Pointer)
